@@ -685,6 +685,12 @@ func heuristicDefLikeFormalsIndex(node *lisp.LVal) int {
 	if !strings.HasPrefix(head, "def") {
 		return -1
 	}
+	// defconst is the language's own (defconst name value docstring...): its
+	// value form is an expression to evaluate, never a formals list, however
+	// much (compute-limit base-size) looks like one.
+	if head == "defconst" || head == "lisp:defconst" {
+		return -1
+	}
 
 	// Find the first child (after head) that looks like a formals list.
 	for i := 1; i < len(node.Cells)-1; i++ {
